@@ -1,4 +1,4 @@
-HOOK_COMMITS = ["3b27975", "5a44400"]
+HOOK_COMMITS = ["3b27975", "5a44400", "0d90624"]
 
 NOT_APPLICABLE = {}
 
